@@ -54,6 +54,8 @@ class Exec:
             self.s.eager_start = True
         elif policy == 'handoff':
             self.s.handoff = True
+        elif policy == 'env_first':
+            self.s.env_first = True
 
     def _choose(self, n, label=''):
         if self.frozen:
